@@ -275,7 +275,7 @@ func (p *parser) parseTrade(r []string) (bool, error) {
 	if err != nil {
 		return false, err
 	}
-	if qty, err = parseRoundedDecimal(r[tfQuantity]); err != nil {
+	if qty, err = parseDecimal(r[tfQuantity]); err != nil {
 		return false, err
 	}
 	if price, err = parseDecimal(r[tfTPrice]); err != nil {
